@@ -178,7 +178,17 @@ def check(case):
                 for _ in range(q):
                     s.load_ref()
                 return s
+            def _windowed():
+                # the slice as the library's own VmStack parser hands it out for a VmCellSlice whose window starts after j bits / q refs
+                from pytoniq_core.tlb.vm_stack import VmStack
+                st_ = (Builder().store_uint(1, 24).store_ref(Builder().end_cell()).store_uint(4, 8).store_ref(l)
+                       .store_uint(j, 10).store_uint(nb, 10).store_uint(q, 3).store_uint(nr, 3).end_cell())
+                return VmStack.deserialize(st_.begin_parse())[0]
+            deep = r.D(0) >= 1022                          # the stack cell around a depth-1023 cell cannot exist
             for name, thunk in (('to_cell', lambda: _consumed().to_cell()),
+                                ('vmstack-window.to_cell', (lambda: _consumed().to_cell()) if deep else (lambda: _windowed().to_cell())),
+                                ('vmstack-window.to_builder.end_cell', (lambda: _consumed().to_cell()) if deep else
+                                 (lambda: _windowed().to_builder().end_cell())),
                                 ('copy.to_cell', lambda: _consumed().copy().to_cell()),
                                 ('to_builder.end_cell', lambda: _consumed().to_builder().end_cell()),
                                 ('store_slice', lambda: Builder().store_slice(_consumed()).end_cell())):
